@@ -21,7 +21,7 @@ inductive Res (α : Type) where
   | ok (a : α)
   | panic (msg : String)
   | ub (msg : String)
-  deriving Repr
+  deriving Repr, DecidableEq
 
 namespace Res
 @[inline] def bind {α β} (r : Res α) (f : α → Res β) : Res β :=
